@@ -90,7 +90,7 @@ class Prop(object):
     ID = 'C05'
     LEVEL = 'model_checking'
     TECHNIQUE = 'exhaustive enumeration of hashed-area contents (reference-signed) on the real parser/verifier plus exhaustive single-bit fault enumeration of the hashed region'
-    RULE = ('one subpacket: type 0..127 x critical bit x length encoding (1/2/5 octets, non-minimal included) x body (free-layout types: every length of the '
+    RULE = ('signature types binary / text / standalone / timestamp x every ordered selection of 0..3 further hashed subpackets (header octets as received, retyped packets refused); one subpacket: type 0..127 x critical bit x length encoding (1/2/5 octets, non-minimal included) x body (free-layout types: every length of the '
             'length set; fixed-layout types: per-type value alphabets incl. every flag octet, boolean 0/1/2/255, every revocation-key class, text in '
             '8 encodings, known/unknown list ids); 2-4 subpackets in every order with duplicates; embedded signature; for a representative of every '
             '(type, length class) and every multi-subpacket case every single-bit flip of the hashed region. One state = one accepted-or-rejected packet / one flipped packet.')
@@ -111,6 +111,7 @@ class Prop(object):
         u.append(('embedded', {}))
         u.append(('attest', {}))
         u.append(('reparse', {}))
+        u.append(('types', {}))
         return u
 
     def run_case(self, check, case):
@@ -295,6 +296,78 @@ class Prop(object):
                     self._check(r, pk, hashed, {'multi': True}, dict(case, only=key), 'subpackets #%s of group %d (%s creation time)' % (key, grp, order),
                                 flips=(n % 40 == 1))
         r.samples.append({'group': grp, 'orders': n})
+        return r
+
+    def c_types(self, case):
+        """The signature's own header as received: document-class signature types (binary, text, standalone, timestamp) x every ordered selection of
+        0..3 further hashed subpackets x creation time first / last. The octets fed to the hash start from the type octet received; the same
+        packet with its type octet rewritten to each of the other three is another signature."""
+        import pgpy
+        r = Res()
+        raw, pub = self._ctx()
+        pool = [wire.subpacket(27, b'\x03'), wire.subpacket(26, b'https://example.org/p'), wire.subpacket(100, b'priv'), wire.subpacket(9, (86400).to_bytes(4, 'big'))]
+        sels = [sq for k in (0, 1, 2, 3) for sq in itertools.permutations(range(len(pool)), k)]
+        types = (0x00, 0x01, 0x02, 0x40)
+        n = -1
+        for t in types:
+            subj, given = ({'doc': DOC}, DOC) if t in (0x00, 0x01) else ({}, None)
+            for sq in sels:
+                for order in ('after', 'before'):
+                    n += 1
+                    if case.get('only') is not None and case['only'] != n:
+                        continue
+                    base = rsig.sp_created(SIG_T) + rsig.sp_issuer_fpr(rkeys.fingerprint(raw))
+                    extra = b''.join(pool[i] for i in sq)
+                    hashed = base + extra if order == 'after' else extra + base
+                    body = rsig.make(raw, t, 8, hashed, rsig.sp_issuer(rkeys.keyid(raw)), subj)
+                    label = 'type 0x%02x signature with %d hashed subpackets (%s)' % (t, 2 + len(sq), order)
+                    one = dict(case, only=n)
+                    r.states += 1
+                    r.transitions += 1
+                    try:
+                        s = pgpy.PGPSignature.from_blob(wire.packet(2, body))
+                        if A.sig_packet(s) is None:
+                            raise ValueError('not loaded')
+                    except Exception as e:
+                        r.rejected += 1
+                        r.outcomes['rejected:' + type(e).__name__] += 1
+                        continue
+                    want = rsig.hash_input(t, 22, 8, hashed, subj)
+                    try:
+                        got = bytes(s.hashdata(given))
+                    except Exception as e:
+                        got = repr(e)
+                    if got != want:
+                        r.outcomes['types:hashdata-differs'] += 1
+                        r.viol('hashdata', {'what': 'hashdata', 'sigtype': t, 'through': 'parsed'}, one, '%s: octets fed to the hash differ from the received header and hashed region' % label)
+                        continue
+                    try:
+                        v = bool(pub.verify(given, s))
+                    except Exception as e:
+                        v = False
+                    r.transitions += 1
+                    if not v:
+                        r.outcomes['types:verify-fails'] += 1
+                        r.viol('verify', {'what': 'verify', 'sigtype': t}, one, '%s: a valid signature by another implementation does not verify' % label)
+                        continue
+                    r.outcomes['types:verifies'] += 1
+                    for t2 in types:
+                        if t2 == t:
+                            continue
+                        b = bytearray(body)
+                        b[1] = t2
+                        r.states += 1
+                        r.transitions += 1
+                        try:
+                            s2 = pgpy.PGPSignature.from_blob(wire.packet(2, b))
+                            ok = A.sig_packet(s2) is not None and bool(pub.verify(DOC if t2 in (0x00, 0x01) else None, s2))
+                        except Exception:
+                            ok = False
+                        r.outcomes['retype:' + ('truthy' if ok else 'falsy')] += 1
+                        if ok:
+                            r.viol('bitflip', {'what': 'retype', 'region': 'header', 'sigtype': t}, dict(one, retype=t2),
+                                   '%s: the same packet with type octet 0x%02x still verifies' % (label, t2))
+        r.samples.append({'types': [hex(t) for t in types], 'selections': len(sels), 'cases': n + 1})
         return r
 
     def c_embedded(self, case):
